@@ -28,6 +28,7 @@ func init() {
 
 func runC02(c *report.Ctx) {
 	checkErrorReplyReachesSink(c)
+	checkTransitionBeforeBody(c)
 	checkErrorIdentity(c, scopeReplyPath, nil, 6)
 	c.Clause("1-2 id routes validated")
 	if f := fn(c, "L/rapi", "NewRouter"); f != nil {
